@@ -20,7 +20,8 @@ VARIANTS = [
     "slow early outgoing listener (lock held up to 40 s)",
     "send() stalls",
     "protocol 47: keep-alive + Set Compression in one burst",
-    "unexpected-frame oracle"
+    "unexpected-frame oracle",
+    "disconnect() called by an ordinary outgoing listener from inside the write pass"
 ]
 RUNS = {'quick': 7000, 'thorough': 400000}
 WALL_CAP = {'quick': 150, 'thorough': 3000}
@@ -191,7 +192,18 @@ def scenario_for(seed, index, tier, _random_only=False):
         slow_out = {'tags': sorted(rng.sample(all_tags, min(
             len(all_tags), rng.choice([1, 2])))),
             'us': rng.choice([1000, 200000, 8000000, 40000000])}
+    quit_on = None
+    rq = make_rng('quit', ID, seed, index)
+    if not big and second is None and slow_out is None and \
+            mode != 'play-switch' and rq.random() < 0.08:
+        # "disconnect once my quit packet has been sent": an ordinary
+        # outgoing listener calls disconnect() when it sees one particular
+        # packet - from inside the write pass (queued packet) or the forced
+        # write that sent it, with the write lock held
+        quit_on = rq.choice([t for ops in threads for _k, t, _s in ops])
+        disc = {'by': 'listener', 'immediate': False}
     return {
+        'quit_on': quit_on,
         'proto': proto, 'mode': mode, 'threshold': threshold,
         'threads': threads, 'disc': disc, 'slow_out': slow_out,
         'early_writer': early_writer,
@@ -466,6 +478,16 @@ def execute(scenario, tape):
                 r = w.api('disconnect-imm' if imm else 'disconnect',
                           conn.disconnect, immediate=imm)
                 st['disc'] = r
+
+            if pi == 0 and scenario.get('quit_on') is not None:
+                def quit_listener(p):
+                    d = bytes(getattr(p, 'data', b'') or b'')
+                    if len(d) >= 4 and struct.unpack('>I', d[:4])[0] == \
+                            scenario['quit_on'] and st['disc'] is None:
+                        do_disconnect()
+                conn.register_packet_listener(
+                    quit_listener, serverbound.play.PluginMessagePacket,
+                    outgoing=True)
 
             def writer(k):
                 def run():
